@@ -640,6 +640,9 @@ fn per_chrom(chrom: Str, size: u32, bws: Vec<(Info, Path)>, max_bw_fds: usize, t
                     flat(srcs(merges@)) == qs,
                     max_bw_fds >= 2,
                     
+                    bws@.len() <= max_bw_fds ==> srcs(merges@) == file_srcs(qs),
+                    qs.len() == bws@.len(),
+                    
                     all_plain(srcs(merges@)),
                 decreases
                     
@@ -649,6 +652,7 @@ fn per_chrom(chrom: Str, size: u32, bws: Vec<(Info, Path)>, max_bw_fds: usize, t
                     let len = merges.len();
 
                     let ghost level = srcs(merges@);
+                    proof { if bws@.len() <= max_bw_fds { assert(srcs(merges@).len() == file_srcs(qs).len()); } assert(bws@.len() > max_bw_fds); }
                     proof { assert(len as int / max_bw_fds as int <= len as int / 2) by (nonlinear_arith) requires max_bw_fds >= 2, len >= 0; }
                     let mut vals = PeekStreams::of(merges);
                     let mut merges: Vec<Stream> = Vec::with_capacity(len/max_bw_fds+1);
@@ -1008,6 +1012,10 @@ pub type Group = Result<(Str, u32, MergingValues), MergingValuesError>;
 #[verifier::external_body]
 pub struct GroupIter { _p: u8 }
 impl GroupIter {
+    // what an edit of a loop header might insert (`for v in iter.skip(1)`): NO postcondition (judged, not rejected)
+    #[verifier::external_body] pub fn skip(self, n: usize) -> GroupIter { unimplemented!() }
+    #[verifier::external_body] pub fn take(self, n: usize) -> GroupIter { unimplemented!() }
+    #[verifier::external_body] pub fn step_by(self, n: usize) -> GroupIter { unimplemented!() }
     pub uninterp spec fn rest(&self) -> Seq<Group>;
     #[verifier::external_body]
     pub fn next(&mut self) -> (r: Option<Group>)
@@ -1335,7 +1343,7 @@ proof fn lemma_bedgraph_and_bigwig_outputs_agree(lb: Seq<Line>, eb: Seq<Event>, 
 }
 
 // Carved: the `for v in iter { .. }` loop of the BedGraph arm.  Frame (signature, `Ok(())`) is the template's.
-// STRUCTURAL (R11): `for v in iter {` -> `loop { let v = match iter.next() { Some(v__) => v__, None => break };`
+// STRUCTURAL (R11): `for v in ITER {` -> `let mut it__ = ITER; loop { let v = match it__.next() { Some(v__) => v__, None => break };`
 // (what `for` does with an iterator); `v?` / `Err(e)?` -> explicit match / return with the Box<dyn Error> conversion.
 fn write_bedgraph(iter0: GroupIter, writer: &mut TextOut) -> (r: Result<(), AnyErr>)
     ensures
@@ -1353,11 +1361,11 @@ fn write_bedgraph(iter0: GroupIter, writer: &mut TextOut) -> (r: Result<(), AnyE
     let mut iter = iter0;
 
     proof { assert(q.subrange(0, q.len() as int) =~= q); }
-            loop 
+            let mut it__ = iter; loop 
         invariant
             
             0 <= m <= q.len(), q == iter0.rest(), lines0 == old(writer).lines(),
-            iter.rest() == q.subrange(m, q.len() as int),
+            it__.rest() == q.subrange(m, q.len() as int),
             groups_ok(q, m),
             
             writer.lines() == bg_all(lines0, q, m),
@@ -1366,7 +1374,7 @@ fn write_bedgraph(iter0: GroupIter, writer: &mut TextOut) -> (r: Result<(), AnyE
         decreases
             
             q.len() - m,
-{ let v = match iter.next() { Some(v__) => v__, None => break };
+{ let v = match it__.next() { Some(v__) => v__, None => break };
 
                 proof {
                     if m < q.len() {
